@@ -1,14 +1,46 @@
 /* C19 seam: stream.c is compiled with -Dmmap=verif_mmap so that the stream is
  * loaded into a heap buffer of exactly the file size.  AddressSanitizer then
  * sees any access outside the loaded stream (an mmap'ed region hides over-reads
- * up to the end of the page). */
+ * up to the end of the page).
+ *
+ * ovnisort rewrites the stream with pwrite() and then reads the result back
+ * through the mapping (on Linux a private mapping whose pages were not written
+ * reflects later changes of the file).  To keep the heap copy faithful to that,
+ * pwrite() is defined here too and mirrors every successful write into the
+ * heap copy of the same file (matched by device and inode). */
 #define _GNU_SOURCE
 #include <stdlib.h>
+#include <string.h>
 #include <sys/mman.h>
+#include <sys/stat.h>
+#include <sys/syscall.h>
 #include <sys/types.h>
 #include <unistd.h>
 
 void *verif_mmap(void *addr, size_t len, int prot, int flags, int fd, off_t off);
+
+#define MAXMAP 64
+static struct { dev_t dev; ino_t ino; unsigned char *buf; size_t len; off_t off; } maps[MAXMAP];
+static int nmaps;
+
+ssize_t
+pwrite(int fd, const void *src, size_t n, off_t off)
+{
+	ssize_t w = (ssize_t) syscall(SYS_pwrite64, fd, src, n, off);
+	struct stat st;
+	if (w > 0 && fstat(fd, &st) == 0) {
+		for (int i = 0; i < nmaps; i++) {
+			if (maps[i].dev != st.st_dev || maps[i].ino != st.st_ino)
+				continue;
+			/* intersect [off, off+w) with the mapped window */
+			off_t a = off > maps[i].off ? off : maps[i].off;
+			off_t b = off + w < maps[i].off + (off_t) maps[i].len ? off + w : maps[i].off + (off_t) maps[i].len;
+			if (a < b)
+				memcpy(maps[i].buf + (a - maps[i].off), (const unsigned char *) src + (a - off), (size_t) (b - a));
+		}
+	}
+	return w;
+}
 
 void *
 verif_mmap(void *addr, size_t len, int prot, int flags, int fd, off_t off)
@@ -23,6 +55,15 @@ verif_mmap(void *addr, size_t len, int prot, int flags, int fd, off_t off)
 		if (r <= 0)
 			break;
 		done += (size_t) r;
+	}
+	struct stat st;
+	if (nmaps < MAXMAP && fstat(fd, &st) == 0) {
+		maps[nmaps].dev = st.st_dev;
+		maps[nmaps].ino = st.st_ino;
+		maps[nmaps].buf = p;
+		maps[nmaps].len = len;
+		maps[nmaps].off = off;
+		nmaps++;
 	}
 	return p;
 }
